@@ -447,42 +447,36 @@ Definition is_script_acct (a : bytes) : bool :=
 Inductive item := ISpend (i : txin) | IMint (policy : bytes) | IReward (script_hash : bytes) | ICert (c : bytes).
 Definition src_script (src : ssrc) : option script :=
   match src with SrcScript s => Some s | SrcUtxo u => u_script u | SrcNone _ => None end.
+Definition att_step (certs : list bytes) (op : bop) : list (N * item) :=
+  match op with
+  | AddScriptInput u _ _ (Some r) => [(r_id r, ISpend (u_in u))]
+  | AddMintingScript src (Some r) => match src_script src with Some s => [(r_id r, IMint (s_hash s))] | None => [] end
+  | AddWithdrawalScript src (Some r) => match src_script src with Some s => [(r_id r, IReward (s_hash s))] | None => [] end
+  | AddCertificateScript src (Some r) => [(r_id r, ICert (last certs []))]      (* the last certificate added so far *)
+  | _ => []
+  end.
+Definition certs_step (certs : list bytes) (op : bop) : list bytes :=
+  match op with AddCert c => certs ++ [c] | _ => certs end.
 Fixpoint attached (certs : list bytes) (ops : list bop) : list (N * item) :=
   match ops with
   | [] => []
-  | op :: rest =>
-      match op with
-      | AddScriptInput u _ _ (Some r) => (r_id r, ISpend (u_in u)) :: attached certs rest
-      | AddMintingScript src (Some r) =>
-          match src_script src with Some s => [(r_id r, IMint (s_hash s))] | None => [] end ++ attached certs rest
-      | AddWithdrawalScript src (Some r) =>
-          match src_script src with Some s => [(r_id r, IReward (s_hash s))] | None => [] end ++ attached certs rest
-      | AddCertificateScript src (Some r) => (r_id r, ICert (last certs [])) :: attached certs rest
-      | AddCert c => attached (certs ++ [c]) rest
-      | _ => attached certs rest
-      end
+  | op :: rest => att_step certs op ++ attached (certs_step certs op) rest
   end.
 
 (* the script hashes the calls say are needed: the payment hash of each script input, each script handed in *)
-Fixpoint needed (ops : list bop) : list bytes :=
-  match ops with
-  | [] => []
-  | op :: rest =>
-      match op with
-      | AddScriptInput u _ _ _ => u_pay u :: needed rest
-      | AddMintingScript src _ | AddWithdrawalScript src _ | AddCertificateScript src _ =>
-          match src_script src with Some s => [s_hash s] | None => [] end ++ needed rest
-      | _ => needed rest
-      end
+Definition need_step (op : bop) : list bytes :=
+  match op with
+  | AddScriptInput u _ _ _ => [u_pay u]
+  | AddMintingScript src _ | AddWithdrawalScript src _ | AddCertificateScript src _ =>
+      match src_script src with Some s => [s_hash s] | None => [] end
+  | _ => []
   end.
+Definition needed (ops : list bop) : list bytes := flat_map need_step ops.
 
 (* datums supplied with script inputs *)
-Fixpoint supplied (ops : list bop) : list (utxo * datum) :=
-  match ops with
-  | [] => []
-  | AddScriptInput u _ (Some d) _ :: rest => (u, d) :: supplied rest
-  | _ :: rest => supplied rest
-  end.
+Definition sup_step (op : bop) : list (utxo * datum) :=
+  match op with AddScriptInput u _ (Some d) _ => [(u, d)] | _ => [] end.
+Definition supplied (ops : list bop) : list (utxo * datum) := flat_map sup_step ops.
 
 (* the ledger's pointer rule on a built transaction: redeemer (tag, index) designates item *)
 Definition designates (t : built) (tag : N) (idx : nat) (it : item) : Prop :=
